@@ -251,6 +251,30 @@ func buildRound(r *ev.Run, rng *rand.Rand, round int) []Spec {
 	}
 	// ---- lifecycle: the parent (server) context of the region storage is cancelled before Close / before
 	// Flush / between saves / after Close, with 1..150 regions pending in the batch (W = pending)
+	for _, pend := range []int{1, 50, 99, 100, 150} {
+		add(Spec{Kind: "lifecycle", Backend: "regionstorage", IDGen: pick(rng, idGens), N: []int{0, 120}[rng.Intn(2)], Hist: "double-close", W: pend})
+		add(Spec{Kind: "lifecycle", Backend: "regionstorage", IDGen: pick(rng, idGens), N: []int{0, 120}[rng.Intn(2)], Hist: "save-flush-after-close", W: pend})
+	}
+	for _, n := range []int{1, 150, 401} {
+		add(Spec{Kind: "ldblifecycle", Backend: "leveldb", IDGen: pick(rng, idGens), N: n})
+	}
+	if th {
+		for k := 0; k < 2; k++ {
+			add(Spec{Kind: "etcdcancel", Backend: "etcd-own", IDGen: pick(rng, idGens), N: []int{330, 470}[rng.Intn(2)], W: 156})
+		}
+	}
+	// ---- equivalent spellings / edge values: weights NaN, negative, -0, +-Inf, huge, denormal; overwrites that differ
+	// from the stored record in exactly one field; region keys with 0x00 / 0xff / '/' / ',' and prefix chains
+	for _, n := range []int{3, 101, 250} {
+		add(Spec{Kind: "stores", Backend: pick(rng, []string{"mem", "leveldb"}), IDGen: pick(rng, idGens), N: n, Hist: "weighted-tombstones", Keys: "edge-weights"})
+		add(Spec{Kind: "stores", Backend: "mem", IDGen: pick(rng, idGens), N: n, Hist: "overwrite", Keys: "one-field"})
+		for _, be := range []string{"mem", "regionstorage", "leveldb"} {
+			add(Spec{Kind: "regions", Backend: be, IDGen: pick(rng, idGens), N: n, Hist: pick(rng, []string{"overwrite", "mixed"}), Keys: "one-field", End: pick(rng, ends)})
+			add(Spec{Kind: "regions", Backend: be, IDGen: pick(rng, idGens), N: n, Hist: pick(rng, hists), Keys: "edgy", End: pick(rng, ends)})
+		}
+		add(Spec{Kind: "prune", Backend: pick(rng, []string{"mem", "regionstorage", "leveldb"}), IDGen: pick(rng, idGens), N: n, Keys: "edgy", End: pick(rng, ends)})
+		add(Spec{Kind: "prune", Backend: "mem", IDGen: pick(rng, idGens), N: n, Keys: "edgy"})
+	}
 	for _, h := range []string{"cancel-before-close", "cancel-before-flush", "cancel-between-saves", "cancel-after-close"} {
 		for _, pend := range []int{1, 2, 50, 99, 100, 101, 150} {
 			add(Spec{Kind: "lifecycle", Backend: "regionstorage", IDGen: pick(rng, idGens), N: []int{0, 1, 120, 260}[rng.Intn(4)], Hist: h, W: pend})
@@ -303,6 +327,10 @@ func (x *runner) runCase(sp Spec) {
 		x.runFlushLoad(sp)
 	case "lifecycle":
 		x.runLifecycle(sp)
+	case "ldblifecycle":
+		x.runLdbLifecycle(sp)
+	case "etcdcancel":
+		x.runEtcdCancel(sp)
 	default:
 		x.r.Inconclusive("unknown case kind %q", sp.Kind)
 		return
